@@ -65,6 +65,7 @@ func runC07(args []string) error {
 		}(i)
 	}
 	wg.Wait()
+	closeLive()
 	for i, e := range errs {
 		if e != nil {
 			return fmt.Errorf("request %d %s: %w", i+1, emitJSON(reqs[i]), e)
@@ -102,6 +103,45 @@ func runC07(args []string) error {
 	return lg.Close()
 }
 
+// liveSandbox is a sandbox with a logged-in client whose directory tree is still exactly as built.
+type liveSandbox struct {
+	sb   *sandbox
+	c    *sim.Client
+	snap []node
+}
+
+var liveMu sync.Mutex
+var livePool = map[int][]*liveSandbox{}
+
+func takeLive(variant int) *liveSandbox {
+	liveMu.Lock()
+	defer liveMu.Unlock()
+	l := livePool[variant]
+	if len(l) == 0 {
+		return nil
+	}
+	ls := l[len(l)-1]
+	livePool[variant] = l[:len(l)-1]
+	return ls
+}
+
+func putLive(variant int, ls *liveSandbox) {
+	liveMu.Lock()
+	livePool[variant] = append(livePool[variant], ls)
+	liveMu.Unlock()
+}
+
+func closeLive() {
+	liveMu.Lock()
+	defer liveMu.Unlock()
+	for _, l := range livePool {
+		for _, ls := range l {
+			ls.sb.close()
+		}
+	}
+	livePool = map[int][]*liveSandbox{}
+}
+
 var snap0Mu sync.Mutex
 var snap0Key = map[int]string{}
 
@@ -119,26 +159,43 @@ func runC07Request(world map[string]any, rq map[string]any) (map[string]any, err
 	acquireWork()
 	defer releaseWork()
 	ur := intOf(rq["ur"])
-	sb, err := newSandboxUR(world, true, ur == 1)
-	if err != nil {
-		return nil, err
-	}
-	defer sb.close()
-	if occ == 1 && ur == 0 {
-		body := []byte("landing " + Marker + "\n")
-		d := sb.w.Dir
-		for _, rel := range []string{"x", "abs", "config/x.yaml", "../x", "../../x", "../abs", "root.bak/n", "config/Users-x/a.yaml"} {
-			_ = os.WriteFile(filepath.Join(d, rel), body, 0644)
+	// a sandbox (and its logged-in client) that a previous request of the same variant left exactly as it was built is
+	// used again; otherwise a fresh one is built
+	ls := takeLive(occ + 2*ur)
+	if ls == nil {
+		sb, err := newSandboxUR(world, true, ur == 1)
+		if err != nil {
+			return nil, err
 		}
+		if occ == 1 && ur == 0 {
+			body := []byte("landing " + Marker + "\n")
+			d := sb.w.Dir
+			for _, rel := range []string{"x", "abs", "config/x.yaml", "../x", "../../x", "../abs", "root.bak/n", "config/Users-x/a.yaml"} {
+				_ = os.WriteFile(filepath.Join(d, rel), body, 0644)
+			}
+		}
+		c, err := login(sb.w)
+		if err != nil {
+			sb.close()
+			return nil, err
+		}
+		snap, err := sb.snapshotOuter()
+		if err != nil {
+			sb.close()
+			return nil, err
+		}
+		ls = &liveSandbox{sb: sb, c: c, snap: snap}
 	}
-	c, err := login(sb.w)
-	if err != nil {
-		return nil, err
-	}
-	before, err := sb.snapshotOuter()
-	if err != nil {
-		return nil, err
-	}
+	sb, c, before := ls.sb, ls.c, ls.snap
+	reusable := false
+	defer func() {
+		if reusable {
+			putLive(occ+2*ur, ls)
+		} else {
+			sb.close()
+		}
+	}()
+	seenBytes := len(c.AllBytes)
 	ev := map[string]any{}
 	for k, v := range rq {
 		ev[k] = v
@@ -218,16 +275,28 @@ func runC07Request(world map[string]any, rq map[string]any) (map[string]any, err
 	}
 	c.Drain()
 	disclosed := 0
-	if bytes.Contains(c.AllBytes, []byte(Marker)) || bytes.Contains(xferBytes, []byte(Marker)) {
+	from := seenBytes - len(Marker)
+	if from < 0 {
+		from = 0
+	}
+	if bytes.Contains(c.AllBytes[from:], []byte(Marker)) || bytes.Contains(xferBytes, []byte(Marker)) {
 		disclosed = 1
 	}
+	d := diffNodes(before, after)
+	closed := false
+	for _, r := range reps {
+		if r == "closed" {
+			closed = true
+		}
+	}
+	reusable = len(d) == 0 && !closed && disclosed == 0 && kind != "acct" && xfer != "timeout" && !c.ServerDone()
 	ev["reps"] = reps
 	ev["xfer"] = xfer
 	ev["names"] = names
 	ev["listed"] = listed
 	ev["fsize"] = fsize
 	ev["disclosed"] = disclosed
-	ev["diff"] = diffNodes(before, after)
+	ev["diff"] = d
 	return ev, nil
 }
 
